@@ -573,13 +573,15 @@ pub mod c20 {
         pub big: u8,
         /// the server stays completely silent for this long in the middle of the session (0: no such pause)
         pub silence_ms: u64,
+        /// with SplitAcrossRecords: the server stalls this long between the pieces of the middle PDU
+        pub stall_inside_pdu_ms: u64,
         pub seed: u64,
     }
 
     impl Scenario {
         pub fn to_json(&self) -> Value {
             json!({"packing": format!("{:?}", self.packing), "n_pdus": self.n_pdus, "end": format!("{:?}", self.end), "point": format!("{:?}", self.point), "step": format!("{:?}", self.step),
-                   "tls12": self.tls12, "linger": self.linger, "input_writer": self.input_writer, "pauses": self.pauses, "end_in_same_record": self.end_in_same_record, "big": self.big, "silence_ms": self.silence_ms, "seed": self.seed, "gen": self.gen_idx()})
+                   "tls12": self.tls12, "linger": self.linger, "input_writer": self.input_writer, "pauses": self.pauses, "end_in_same_record": self.end_in_same_record, "big": self.big, "silence_ms": self.silence_ms, "stall_inside_pdu_ms": self.stall_inside_pdu_ms, "seed": self.seed, "gen": self.gen_idx()})
         }
         fn gen_idx(&self) -> Value {
             Value::Null
@@ -708,7 +710,8 @@ pub mod c20 {
     fn bitmap_pdu(srv: &Server, k: usize, big: u8) -> (Vec<u8>, Vec<Vec<u8>>) {
         let large = big > 0 && k % 2 == 0;
         let nr = if large && big == 2 { 1 } else { 1 + k % 3 };
-        let (w, h): (u16, u16) = if !large { (2, 2) } else if big == 1 { (32, 16) } else { (64, 80) };
+        // small rectangles come in every thin shape too (a caret, a border line, a single pixel)
+        let (w, h): (u16, u16) = if !large { [(2u16, 2u16), (1, 1), (1, 3), (5, 1)][k % 4] } else if big == 1 { (32, 16) } else { (64, 80) };
         let rects: Vec<Rect> = (0..nr)
             .map(|i| Rect { left: k as u16, top: i as u16, right: k as u16 + w - 1, bottom: i as u16 + h - 1, width: w, height: h, bpp: 32, flags: 0, data: {
                 let mut d = vec![0u8; w as usize * h as usize * 4];
@@ -915,7 +918,11 @@ pub mod c20 {
                 Packing::SplitAcrossRecords(n) => {
                     let (f, st) = bitmap_pdu(&srv, k, sc.big);
                     let piece = (f.len() + n - 1) / n;
-                    for ch in f.chunks(piece.max(1)) {
+                    for (ci, ch) in f.chunks(piece.max(1)).enumerate() {
+                        if ci > 0 && sc.stall_inside_pdu_ms > 0 && k == end_after / 2 {
+                            std::thread::sleep(Duration::from_millis(sc.stall_inside_pdu_ms));
+                            trace.push(format!("stall-inside-pdu-{}ms", sc.stall_inside_pdu_ms));
+                        }
                         srv.write_raw(&srv.seal(ch));
                         pause(&mut rng, sc.pauses);
                     }
@@ -1180,7 +1187,7 @@ pub mod c20 {
                 let point = points[(k % 4) as usize];
                 k /= 4;
                 let step = steps[(k % 3) as usize];
-                Scenario { packing, n_pdus: 6, end, point, step, tls12: r.chance(2, 3), linger: r.chance(1, 2), input_writer: r.chance(1, 2), pauses: r.chance(1, 2), end_in_same_record: r.chance(1, 5), big: r.below(3) as u8, silence_ms: 0, seed: seed ^ idx }
+                Scenario { packing, n_pdus: 6, end, point, step, tls12: r.chance(2, 3), linger: r.chance(1, 2), input_writer: r.chance(1, 2), pauses: r.chance(1, 2), end_in_same_record: r.chance(1, 5), big: r.below(3) as u8, silence_ms: 0, stall_inside_pdu_ms: 0, seed: seed ^ idx }
             }
             2 => {
                 // a live session in which the server says nothing for a while, then goes on
@@ -1197,7 +1204,9 @@ pub mod c20 {
                     pauses: false,
                     end_in_same_record: false,
                     big: (idx % 3) as u8,
-                    silence_ms: silences[(idx as usize / 3) % silences.len()],
+                    // odd scenarios (PDUs split across records) stall inside a PDU instead of between PDUs
+                    silence_ms: if idx % 2 == 0 { silences[(idx as usize / 3) % silences.len()] } else { 0 },
+                    stall_inside_pdu_ms: if idx % 2 == 1 { [3_500u64, 6_000, 11_000, 31_000][(idx as usize / 3) % 4] } else { 0 },
                     seed: seed ^ idx ^ 0x5151,
                 }
             }
@@ -1214,6 +1223,7 @@ pub mod c20 {
                 end_in_same_record: r.chance(1, 5),
                 big: r.below(3) as u8,
                 silence_ms: 0,
+                stall_inside_pdu_ms: 0,
                 seed: seed.wrapping_mul(31) ^ idx,
             },
         }
@@ -1263,7 +1273,7 @@ pub mod c20 {
         }
         if cfg.wants(2) {
             // quick: three sessions with 6 s of silence (run side by side); thorough: 6, 11, 31 and 61 s
-            let n: u64 = if cfg.quick() { 3 } else { 12 };
+            let n: u64 = if cfg.quick() { 4 } else { 24 };
             let mut c3 = cfg.clone();
             c3.threads = 12;
             let rep = par_run(&c3, n, 1, |idx, rep| {
